@@ -66,6 +66,17 @@ Proof.
       apply (wf_below _ Hw s1 a); [apply in_or_app; left; exact H1|apply in_or_app; right; left; reflexivity|exact Hlt|exact Hx].
 Qed.
 
+(* Log.Model.trunc_segs on a log split around the truncation point *)
+Lemma trunc_segs_shape o preS t postS : forall first, Forall (fun sg => s_next sg <= o) preS -> o < s_next t ->
+  trunc_segs first (preS ++ t :: postS) o =
+  preS ++ (if (s_base t =? o) && negb (match preS with [] => first | _ => false end) then [] else [mkSeg (s_base t) (keep_below (s_recs t) o)]).
+Proof.
+  induction preS as [|x r IH]; intros first HF Ht; cbn [app trunc_segs].
+  - destruct (Z.ltb_spec o (s_next t)); [reflexivity|lia].
+  - inversion HF as [|? ? Hx Hr]; subst. destruct (Z.ltb_spec o (s_next x)); [lia|].
+    rewrite (IH false Hr Ht). destruct r; reflexivity.
+Qed.
+
 Lemma good_meq s d' : Good s -> meq (s_disk s) d' -> Good (mkSt d' (s_hw s)).
 Proof.
   intros G (A & B & C & D). split; cbn [s_disk s_hw]; unfold segs_of, content, d_active; rewrite <- ?A, <- ?B, <- ?C, <- ?D; apply G.
@@ -324,6 +335,15 @@ Section Trunc.
   Qed.
 
   Definition cfin (i : nat) : epoch_cache := cache_clear_latest c0 (Z.min o (trunc_next (segs_of d0) i (m_seg t) o)).
+
+  (* the final segments are the in-memory model's *)
+  Lemma final_is_model i : i = length pre -> map m_seg (final_segs i) = trunc_segs true (segs_of d0) o.
+  Proof.
+    intros Hi. unfold segs_of. rewrite Hshape, map_app. cbn [map]. rewrite (trunc_segs_shape o (map m_seg pre) (m_seg t) (map m_seg later) true Hpre Hnext).
+    unfold final_segs. change (s_base (m_seg t)) with (m_base t).
+    assert (Ef : (match map m_seg pre with [] => true | _ => false end) = Nat.eqb i 0) by (subst i; destruct pre; reflexivity).
+    rewrite Ef. destruct ((m_base t =? o) && negb (Nat.eqb i 0)); [rewrite app_nil_r; reflexivity|rewrite map_app; reflexivity].
+  Qed.
 
   Lemma trunc_seq i : i = length pre -> find_segment (segs_of d0) o = Some (i, m_seg t) ->
     seq R (at_ d0) (trunc_effs fixed d0 o) (at_ (mk (final_segs i) [] (cfin i))) /\
